@@ -28,10 +28,12 @@ READY = {
          "Canonical-form round trips over every tag of every bundled schema: bounded (exhaustive in thorough tier)." + BND,
          "casefold uninterpreted and assumed length-preserving on the resolved text; tag section trusted to hold exactly the registered forms "
          "(loaders not verified); _validate_remaining_terms trusted"),
- "C04": ("other", "Relational property. Deductive part: the C01 rule contracts speak about a tag only through its resolved node and extension "
-         "(proved in C01/C03), which gives spelling-invariance of each rule. Spacing, sibling-order and duplicate detection are decided by the "
-         "bounded workload only (all trees <= 3-4 leaves, all orderings/spellings/blank rewrites)." + BND,
-         "no obligation of this property's own is discharged: the check is a bounded stand-in and says so"),
+ "C04": ("proof", "Relational property. Proved: tag equality HedTag.__eq__ is exactly 'same object, or canonical short forms equal ignoring case, or "
+         "texts as written equal ignoring case' (so every spelling/case of one tag compares equal); the delimiter scan accepts exactly the "
+         "well-formed delimiter structures and its verdict is insensitive to blanks around delimiters (shared with C01); the C01 rule contracts speak "
+         "about a tag only through its resolved node and extension (spelling-invariance of each rule). Sibling-order, duplicate detection and "
+         "whole-string verdict equality: bounded workload (all trees <= 3-4 leaves, all orderings/spellings/blank rewrites)." + BND,
+         "casefold uninterpreted; HedTag model (short_tag/org_tag as fields); canonical sort (HedGroup.sorted) bounded only"),
  "C05": ("other", "Deductive kernel: the refusal to save a multi-library merge (raises before anything is written, ghost output counter) and the "
          "selection table deciding which entries/attributes are written (_should_skip, _attribute_disallowed, flags set by process_schema for standard / "
          "partnered merged / partnered unmerged) are proved. The file round trips themselves run through ElementTree/pandas and are decided by the "
@@ -46,9 +48,12 @@ READY = {
  "C08": ("proof", "Brace scanner proved against braces_ok() for all strings (iff, indices in range); error-context stack proved balanced on every path of "
          "the five sidecar-validation functions. Totality over all JSON documents to depth 3 and single-fault codes: bounded workload." + BND,
          "array encoding of strings; opaque values in the context-balance contracts"),
- "C09": ("other", "Name rule (_strip_value_placeholder) proved; acceptance rules, expand/shrink typestate and Def-expand comparison are decided by the "
-         "bounded workload (all op sequences <= 3-4 over expand/shrink/copy/validate/str)." + BND,
-         "the filtered-list counting invariant of _validate_placeholders was not decided by z3/cvc5 within budget and is not claimed"),
+ "C09": ("proof", "Name rule (_strip_value_placeholder) proved; DefValidator._validate_def_contents proved from the property text: a Def-expand group is "
+         "accepted exactly when its canonical form equals the canonical form of the declared expansion (DEF_EXPAND_INVALID otherwise), an undeclared "
+         "name is reported with the Def/Def-expand code. Declaration acceptance rules, expand/shrink typestate and copies: bounded workload "
+         "(all op sequences <= 3-4 over expand/shrink/copy/validate/str)." + BND,
+         "trusted: DefinitionEntry.get_definition as a deterministic function expansion_of, HedGroup.sorted as canon_of, structural == as an "
+         "uninterpreted relation; the filtered-list counting invariant of _validate_placeholders was not decided within budget and is not claimed"),
  "C10": ("proof", "Open-scope dictionary under contract: _handle_onset_or_offset proved against the abstract view open(self)=keys(_onsets) with whole-view "
          "postconditions (Onset opens, Offset closes iff open else reports, Inset reports iff not open; case-insensitive name). Time-point construction "
          "(Delay, sorting, equal onsets) and same-name-twice: bounded workload over all histories <= 3-4 markers." + BND,
@@ -64,9 +69,10 @@ READY = {
          "dispatch of HedSchemaGroup.find_tag_entry (resolved by the schema owning the prefix and no other; unloaded prefix is an error) proved. "
          "Prefixed-vs-alone verdict equality, partnered-library content and refusal cases: bounded workload over all offline pairings." + BND,
          "tag_view abstract view shared with C03; isalpha exact on ASCII, uninterpreted elsewhere; loaders not verified"),
- "C14": ("proof", "Attribute validators conversion_factor, unit_exists, tag_is_placeholder_check proved as iff/implication clauses with the published code. "
+ "C14": ("proof", "Attribute validators conversion_factor, unit_exists, tag_is_placeholder_check and in_library_check (whole comma-separated field, not substring) "
+         "proved as iff/implication clauses with the published code. "
          "Acceptance of all bundled schemas and seeded faults at sampled positions: bounded workload." + BND,
-         "float parsing uninterpreted; derivative_unit lookup trusted; hedId validator (dynamic typing) bounded only"),
+         "float parsing uninterpreted; derivative_unit lookup trusted; str.split(',') modelled by its exact field characterisation; hedId validator (dynamic typing) bounded only"),
  "C15": ("proof", "Result merging (identity-union of tags, same group, ValueError iff groups differ) and has_same_tags proved. Term matching, Or/And laws, "
          "sibling-order invariance, frame and parser totality: bounded workload (5.7M evaluations quick)." + BND,
          "structural == of HedGroup uninterpreted reflexive relation; sort modelled as a permutation"),
